@@ -35,6 +35,7 @@ type binder struct{ name, sort string }
 // generation order, so that every obligation can be checked against exactly the
 // prefix of definitions and assumptions that precede it in program order.
 type Script struct {
+	canonMemo map[string]string
 	fresh     map[string]bool              // terms denoting references allocated by this execution (pairwise distinct)
 	defs      map[string]string            // defined name -> body (definitions without binders)
 	elemFacts map[string]map[string]string // declared array -> literal index -> element term
@@ -523,4 +524,35 @@ func (s *Script) subS(a, b string) string {
 		}
 	}
 	return app("bvsub", a, b)
+}
+
+// canon expands definitions recursively: two terms with the same canonical text
+// denote the same value (used as keys for deterministic uninterpreted results).
+func (s *Script) canon(t string) string {
+	if s.canonMemo == nil {
+		s.canonMemo = map[string]string{}
+	}
+	if r, ok := s.canonMemo[t]; ok {
+		return r
+	}
+	r := s.resolve(t)
+	toks := splitApp(r)
+	if len(toks) > 0 {
+		var b strings.Builder
+		b.WriteByte('(')
+		for i, tk := range toks {
+			if i > 0 {
+				b.WriteByte(' ')
+			}
+			if i == 0 && !strings.HasPrefix(tk, "(") {
+				b.WriteString(tk)
+			} else {
+				b.WriteString(s.canon(tk))
+			}
+		}
+		b.WriteByte(')')
+		r = b.String()
+	}
+	s.canonMemo[t] = r
+	return r
 }
